@@ -30,6 +30,8 @@ def generate(ctx):
     metas, errors = gen.regen(ctx, ["Consts", "CltvChecks"])
     if errors:
         raise RuntimeError("; ".join("%s: %s" % kv for kv in sorted(errors.items())))
+    from props import _gen_cltv
+    ctx.gen_meta = ctx.gen_meta + _gen_cltv.generate(ctx)
     return ctx.gen_meta
 
 
